@@ -307,6 +307,7 @@ func c09Scenarios() []schedScenario {
 
 func (c09) Plan(tier string) []fw.Unit {
 	us := planEnum("C09", tier, len(c09Configs(tier)), 1)
+	us = append(us, fw.Unit{Check: "C09", Kind: "key-pairs", Tier: tier, Spec: fw.Spec(enumSpec{})})
 	bound := 1
 	if tier == "thorough" {
 		bound = 2
@@ -324,6 +325,9 @@ func (c09) Plan(tier string) []fw.Unit {
 func (c09) Run(u fw.Unit) fw.Result {
 	if u.Kind == "sched" {
 		return runSched("C09", u, c09Scenarios())
+	}
+	if u.Kind == "key-pairs" {
+		return c09KeyPairs()
 	}
 	sp := parseEnum(u)
 	cfg := c09Configs(u.Tier)[sp.Cfg]
